@@ -42,6 +42,15 @@ type tScript struct {
 	// after ctx.Done: keep running until a NEWER instance of the same dn is seen running, at most `linger`
 	lingerUntilTwin bool
 	ctxHow          string // what is returned after ctx.Done: ""/"own" = ctx.Err(), wctx, nil, other
+	// A REJECTED batch: after `badAt` of the `groups` have been started (0 = it is the first call, len(groups) = the
+	// last) the service makes one more RunGroup call (supervisor.Run when it is a single name) that the supervisor has to
+	// refuse AS A WHOLE: `badGroup` holds a name already running under this service (started by an earlier group of the
+	// same incarnation) and / or a name without any [a-z0-9_] character, next to any number of fresh valid names.
+	// badIgnore=false: the service returns the error at once (`if err := supervisor.RunGroup(..); err != nil { return
+	// err }`) - a failure like any other; true: it carries on with its set-up and leaves later as `fail` / `after` say.
+	badGroup  []string
+	badAt     int
+	badIgnore bool
 }
 
 type tScenario struct {
@@ -61,6 +70,10 @@ type tScenario struct {
 	// (0 = the scenario deadline).  Only set where every exit latency and back-off of the scenario is shorter by orders
 	// of magnitude, so that a service still running after it will evidently never stop.
 	stopWait time.Duration
+	// Upper bound on how long runScenario waits for the tree to come back to its running configuration (0 = the scenario
+	// deadline).  Only set where every back-off and exit latency of the scenario is shorter by orders of magnitude, so
+	// that a service which is not back after it will evidently never be started again.
+	settleWait time.Duration
 }
 
 type tEvent struct {
@@ -85,14 +98,14 @@ type tInst struct {
 }
 
 type tRun struct {
-	sc      *tScenario
-	sup     *supervisor
-	mu      sync.Mutex // the event log mutex
-	events  []tEvent
-	insts   []*tInst
-	enters  map[string]int
-	t0      time.Time
-	doneSig map[string]chan struct{} // closed when dn signalled Done (first time)
+	sc        *tScenario
+	sup       *supervisor
+	mu        sync.Mutex // the event log mutex
+	events    []tEvent
+	insts     []*tInst
+	enters    map[string]int
+	t0        time.Time
+	doneSig   map[string]chan struct{} // closed when dn signalled Done (first time)
 	settledOK bool
 }
 
@@ -138,6 +151,21 @@ func (r *tRun) tune(n *node) {
 	n.bo.InitialInterval = r.sc.init
 	n.bo.MaxInterval = r.sc.max
 	n.bo.Reset()
+}
+
+// names of a batch as they travel in the case line: comma separated, the empty name as "~", no names as "-"
+func tNames(g []string) string {
+	if len(g) == 0 {
+		return "-"
+	}
+	q := make([]string, len(g))
+	for i, nm := range g {
+		q[i] = nm
+		if nm == "" {
+			q[i] = "~"
+		}
+	}
+	return strings.Join(q, ",")
 }
 
 func tErr(how string, ctx context.Context) error {
@@ -214,7 +242,8 @@ func (r *tRun) service(ctx context.Context) (ret error) {
 		return err
 	}
 
-	for _, g := range sc.groups {
+	// one RunGroup / Run call, logged under the log mutex; names are rendered like part (i) does ("" as "~")
+	runBatch := func(g []string, single bool) (string, error) {
 		m := map[string]Runnable{}
 		for _, nm := range g {
 			m[nm] = r.service
@@ -222,7 +251,12 @@ func (r *tRun) service(ctx context.Context) (ret error) {
 		r.mu.Lock()
 		idx := r.logLocked("run", in, "")
 		var err error
-		res := vGuard(func() { err = RunGroup(ctx, m) })
+		var res string
+		if single && len(g) == 1 {
+			res = vGuard(func() { err = Run(ctx, g[0], r.service) })
+		} else {
+			res = vGuard(func() { err = RunGroup(ctx, m) })
+		}
 		if res == "ok" && err != nil {
 			res = "err"
 		}
@@ -234,10 +268,21 @@ func (r *tRun) service(ctx context.Context) (ret error) {
 			}
 			r.sup.mu.Unlock()
 		}
-		r.events[idx].body = fmt.Sprintf("names=%s res=%s", strings.Join(g, ","), res)
+		r.events[idx].body = fmt.Sprintf("names=%s res=%s", tNames(g), res)
 		r.mu.Unlock()
 		if res == "panic" {
 			panic("verif: RunGroup panicked")
+		}
+		return res, err
+	}
+	for gi := 0; gi <= len(sc.groups); gi++ {
+		if sc.badGroup != nil && gi == sc.badAt {
+			if res, err := runBatch(sc.badGroup, true); res == "err" && !sc.badIgnore {
+				return exit(fmt.Errorf("verif: cannot start workers: %w", err))
+			}
+		}
+		if gi < len(sc.groups) {
+			runBatch(sc.groups[gi], false)
 		}
 	}
 	sig := func(s SignalType) {
@@ -408,7 +453,11 @@ func runScenario(sc *tScenario, deadline time.Duration) *tRun {
 		return r.finishInWindow(cancel, deadline)
 	}
 	exp := r.expected()
-	dl := time.Now().Add(deadline)
+	settleFor := deadline
+	if sw := sc.settleWait; sw > 0 && sw < deadline {
+		settleFor = sw
+	}
+	dl := time.Now().Add(settleFor)
 	ok, why := false, ""
 	stableSince := time.Time{}
 	for time.Now().Before(dl) {
@@ -995,6 +1044,228 @@ func completedRandom(r *rand.Rand, idx int) *tScenario {
 	return sc
 }
 
+// ---------------------------------------------------------------- rejected batches
+
+// tFresh: k valid names that no scripted tree uses.  The name pattern is unanchored, so one character of [a-z0-9_]
+// anywhere in the name makes it valid.
+func tFresh(k int) []string {
+	out := make([]string, k)
+	for i := range out {
+		out[i] = fmt.Sprintf([]string{"w%d", "W_%d", "Job%d"}[i%3], i)
+	}
+	return out
+}
+
+// tRejected: a batch the supervisor has to refuse as a whole: the offending names in the middle of k fresh valid ones
+// (the order is immaterial - the batch is a Go map).
+func tRejected(k int, offending ...string) []string {
+	f := tFresh(k)
+	out := append([]string{}, f[:k/2]...)
+	out = append(out, offending...)
+	return append(out, f[k/2:]...)
+}
+
+// tCaller: the first n incarnations follow `s` (which carries the rejected batch), the last one is stable and starts
+// the same groups without the rejected call.
+func tCaller(n int, groups [][]string, s tScript) []tScript {
+	var l []tScript
+	for i := 0; i < n; i++ {
+		c := s
+		c.groups = groups
+		l = append(l, c)
+	}
+	return append(l, tScript{groups: groups, healthy: true})
+}
+
+// Every back-off in the rejected-batch scenarios is <= 72 ms and every exit latency <= 5 ms: a service that is not
+// back 4 s after the scenario began will evidently never be started again.
+const tRejectedSettle = 4 * time.Second
+
+// rejectedFixed: a service makes a RunGroup (or Run) call that the supervisor refuses - a name that is already running
+// under it, or an invalid name, among a dozen fresh ones - and returns that error (or ignores it and fails later for
+// another reason: error, panic, plain return).  "When a supervised service returns ... it and the members of its group
+// are cancelled and the service is started again after a bounded back-off": the refused call must leave nothing behind
+// that keeps the caller (or an ancestor of it) from being restarted.  The first two or three incarnations of the
+// caller all make the refused call; the call is the first, a middle or the last one of the set-up; the caller is the
+// root, an inner node alone in its group, a member of a group of two, a node at depth 2.
+func rejectedFixed() []*tScenario {
+	ms := time.Millisecond
+	gs := func(g ...[]string) [][]string { return g }
+	g := func(nm ...string) []string { return nm }
+	out := []*tScenario{
+		{name: "rejected-duplicate-last-call-root", scripts: map[string][]tScript{
+			"root": tCaller(3, gs(g("a"), g("b")), tScript{badGroup: tRejected(14, "a"), badAt: 2}),
+		}},
+		{name: "rejected-duplicate-middle-call-root", scripts: map[string][]tScript{
+			"root":   tCaller(3, gs(g("a"), g("b", "c")), tScript{badGroup: tRejected(12, "a"), badAt: 1}),
+			"root.b": {{healthy: true, linger: 2 * ms}},
+		}},
+		{name: "rejected-invalid-first-call-root", scripts: map[string][]tScript{
+			"root": tCaller(3, gs(g("a")), tScript{badGroup: tRejected(15, ""), badAt: 0}),
+		}},
+		{name: "rejected-invalid-inner", scripts: map[string][]tScript{
+			"root":   {{groups: gs(g("p"), g("s")), healthy: true}},
+			"root.p": tCaller(3, gs(g("x")), tScript{badGroup: tRejected(13, "A-B"), badAt: 1}),
+		}},
+		// the caller is a member of a group of two: its sibling is cancelled with it and started again as well
+		{name: "rejected-duplicate-group-member", scripts: map[string][]tScript{
+			"root":   {{groups: gs(g("a", "b"), g("d")), healthy: true}},
+			"root.a": tCaller(3, gs(g("x")), tScript{badGroup: tRejected(14, "x"), badAt: 1}),
+			"root.b": {{healthy: true, linger: 3 * ms, ctxHow: "wctx"}},
+		}},
+		{name: "rejected-ignored-then-error", scripts: map[string][]tScript{
+			"root":   {{groups: gs(g("p")), healthy: true}},
+			"root.p": tCaller(2, gs(g("x"), g("y")), tScript{badGroup: tRejected(15, "x"), badAt: 1, badIgnore: true, healthy: true, fail: "other", after: 3 * ms}),
+		}},
+		{name: "rejected-ignored-then-panic-root", scripts: map[string][]tScript{
+			"root":   tCaller(2, gs(g("a")), tScript{badGroup: tRejected(12, "!!"), badAt: 0, badIgnore: true, healthy: true, fail: "panic", after: 4 * ms}),
+			"root.a": {{healthy: true, linger: 2 * ms}},
+		}},
+		{name: "rejected-ignored-then-nil-group-member", scripts: map[string][]tScript{
+			"root":   {{groups: gs(g("p", "q")), healthy: true}},
+			"root.p": tCaller(2, gs(g("x")), tScript{badGroup: tRejected(13, "x", "%"), badAt: 1, badIgnore: true, fail: "nil", after: 2 * ms}),
+		}},
+		// supervisor.Run: a batch of one
+		{name: "rejected-run-duplicate", scripts: map[string][]tScript{
+			"root":   {{groups: gs(g("p")), healthy: true}},
+			"root.p": tCaller(2, gs(g("x")), tScript{badGroup: g("x"), badAt: 1}),
+		}},
+		{name: "rejected-run-invalid-root", scripts: map[string][]tScript{
+			"root": tCaller(2, gs(g("a")), tScript{badGroup: g("%"), badAt: 1}),
+		}},
+		{name: "rejected-depth2-caller", scripts: map[string][]tScript{
+			"root":     {{groups: gs(g("p")), healthy: true}},
+			"root.p":   {{groups: gs(g("q"), g("s")), healthy: true}},
+			"root.p.q": tCaller(3, gs(g("l")), tScript{badGroup: tRejected(14, "l", ""), badAt: 1}),
+		}},
+		{name: "rejected-two-callers", scripts: map[string][]tScript{
+			"root":   {{groups: gs(g("a"), g("b")), healthy: true}},
+			"root.a": tCaller(2, gs(g("x")), tScript{badGroup: tRejected(12, "x"), badAt: 1}),
+			"root.b": tCaller(2, nil, tScript{badGroup: tRejected(12, "X+Y"), badAt: 0}),
+		}},
+		// the caller ignores the error and keeps running; later its PARENT fails: the whole subtree is started again
+		{name: "rejected-ignored-parent-fails-later", scripts: map[string][]tScript{
+			"root":     {{groups: gs(g("p")), healthy: true}},
+			"root.p":   {{groups: gs(g("c")), healthy: true, fail: "other", after: 25 * ms}, {groups: gs(g("c")), healthy: true}},
+			"root.p.c": {{groups: gs(g("l")), badGroup: tRejected(14, "l"), badAt: 1, badIgnore: true, healthy: true}},
+		}},
+		// the caller ignores the error and never fails; a service it started earlier fails and is started again
+		{name: "rejected-ignored-caller-stays-up", scripts: map[string][]tScript{
+			"root":   {{groups: gs(g("a")), badGroup: tRejected(12, "A"), badAt: 0, badIgnore: true, healthy: true}},
+			"root.a": {{healthy: true, fail: "other", after: 3 * ms}, stableLeaf()},
+		}},
+	}
+	for _, sc := range out {
+		sc.init, sc.max, sc.settleWait = tInit, tMax, tRejectedSettle
+	}
+	return out
+}
+
+// rejectedScenarios: PRNG-shaped trees (depth <= 3) in which one PRNG-chosen service - the root, an inner node, a leaf,
+// alone or in a group of two - makes a refused call in its first two or three incarnations: which call of its set-up
+// it is, what makes it unacceptable (a name started by an earlier call, one of six invalid names, both), how many fresh
+// names it carries (10..24), whether the error is returned at once or ignored (then: error / plain return / panic /
+// wrapped sub-context error a little later) are all drawn from the PRNG.
+func rejectedScenarios(r *rand.Rand, n int) []*tScenario {
+	ms := time.Millisecond
+	invalid := []string{"", "A-B", "!!", "%", "X+Y", "A"} // no character of [a-z0-9_] ("Zq" would be valid: the pattern is unanchored)
+	type nd struct {
+		dn     string
+		groups [][]string
+	}
+	var out []*tScenario
+	for i := 0; i < n; i++ {
+		sc := &tScenario{name: fmt.Sprintf("rejected-rand%d", i), scripts: map[string][]tScript{}, init: tInit, max: tMax, settleWait: tRejectedSettle}
+		budget := 6
+		var nodes []nd
+		var mk func(dn string, depth int)
+		mk = func(dn string, depth int) {
+			var groups [][]string
+			if depth < 3 && budget > 0 && (depth == 0 || r.Intn(2) == 0) {
+				names := []string{"a", "b", "c", "d"}
+				r.Shuffle(len(names), func(i, j int) { names[i], names[j] = names[j], names[i] })
+				pos := 0
+				for g := 0; g < 1+r.Intn(2) && pos < len(names) && budget > 0; g++ {
+					var grp []string
+					for k := 0; k < 1+r.Intn(2) && pos < len(names) && budget > 0; k++ {
+						grp = append(grp, names[pos])
+						pos++
+						budget--
+					}
+					sort.Strings(grp)
+					groups = append(groups, grp)
+				}
+			}
+			nodes = append(nodes, nd{dn, groups})
+			for _, g := range groups {
+				for _, nm := range g {
+					mk(dn+"."+nm, depth+1)
+				}
+			}
+		}
+		mk("root", 0)
+		ci := r.Intn(len(nodes))
+		if r.Intn(4) == 0 {
+			ci = 0
+		}
+		for j, x := range nodes {
+			if j != ci {
+				sc.scripts[x.dn] = []tScript{{groups: x.groups, healthy: true, ctxHow: []string{"own", "own", "wctx"}[r.Intn(3)], linger: time.Duration(r.Intn(2)*r.Intn(5)) * ms}}
+				continue
+			}
+			var s tScript
+			var offending []string
+			if len(x.groups) > 0 && r.Intn(3) != 0 {
+				// a name started by an earlier call of the same incarnation
+				s.badAt = 1 + r.Intn(len(x.groups))
+				g := x.groups[r.Intn(s.badAt)]
+				offending = append(offending, g[r.Intn(len(g))])
+				if r.Intn(5) == 0 {
+					offending = append(offending, invalid[r.Intn(len(invalid))])
+				}
+			} else {
+				s.badAt = r.Intn(len(x.groups) + 1)
+				offending = append(offending, invalid[r.Intn(len(invalid))])
+			}
+			s.badGroup = tRejected(10+r.Intn(15), offending...)
+			if r.Intn(3) == 0 {
+				s.badIgnore, s.healthy = true, r.Intn(2) == 0
+				s.fail = []string{"other", "nil", "panic", "wsubctx"}[r.Intn(4)]
+				s.after = time.Duration(1+r.Intn(5)) * ms
+			}
+			sc.scripts[x.dn] = tCaller(2+r.Intn(2), x.groups, s)
+		}
+		out = append(out, sc)
+	}
+	return out
+}
+
+// doneMemberScenarios: a member of a group of >= 2 has signalled Healthy and Done and KEEPS RUNNING (a runnable may
+// signal Done long before it returns); then another member of the group fails - the barrier `waitFor` makes the order
+// certain.  "it and the members of its group are cancelled": the Done member's context is cancelled like everybody
+// else's; it answers with nil (completed: left alone from then on) or with the context error (started again).
+func doneMemberScenarios() []*tScenario {
+	ms := time.Millisecond
+	out := []*tScenario{
+		{name: "done-member-running-sibling-fails", scripts: map[string][]tScript{
+			"root":   {{groups: [][]string{{"a", "b"}, {"d"}}, healthy: true}},
+			"root.a": {{healthy: true, fail: "other", waitFor: "root.b", after: 2 * ms}, stableLeaf()},
+			"root.b": {{healthy: true, done: true, ctxHow: "nil"}},
+		}},
+		{name: "done-member-running-sibling-panics", scripts: map[string][]tScript{
+			"root":     {{groups: [][]string{{"p"}}, healthy: true}},
+			"root.p":   {{groups: [][]string{{"a", "b", "c"}}, healthy: true}},
+			"root.p.a": {{fail: "panic", waitFor: "root.p.b", after: ms}, stableLeaf()},
+			"root.p.b": {{healthy: true, done: true, ctxHow: "own", linger: 2 * ms}},
+			"root.p.c": {{healthy: true, ctxHow: "wctx"}},
+		}},
+	}
+	for _, sc := range out {
+		sc.init, sc.max = tInit, tMax
+	}
+	return out
+}
+
 func TestVerifSupervisorTrace(t *testing.T) {
 	out := os.Getenv("VERIF_OUT")
 	if out == "" {
@@ -1033,6 +1304,14 @@ func TestVerifSupervisorTrace(t *testing.T) {
 		nCompleted = 108
 	}
 	scs = append(scs, completedScenarios(rnd, nCompleted)...)
+	// rejected RunGroup / Run calls (appended last: the scenarios above are the same for a given seed as before)
+	nRejected := 10
+	if os.Getenv("VERIF_TIER") == "thorough" {
+		nRejected = 60
+	}
+	scs = append(scs, rejectedFixed()...)
+	scs = append(scs, rejectedScenarios(rnd, nRejected)...)
+	scs = append(scs, doneMemberScenarios()...)
 	f, err := os.Create(filepath.Join(out, "supervisor_trace.cases"))
 	if err != nil {
 		t.Fatal(err)
